@@ -30,6 +30,10 @@ class Tup(Ty):
     def key(self): return self.ts
     def name(self): return "Tup_" + "_".join(t.name() for t in self.ts)
 
+class Rec(Tup):
+    """Fixed-length heterogeneous *list* used as a mutable record ([a, b, c]; item assignment allowed)."""
+    def name(self): return "Rec_" + "_".join(t.name() for t in self.ts)
+
 class List(Ty):
     def __init__(self, t): self.t = t
     def key(self): return self.t
